@@ -95,7 +95,7 @@ def book_inv(st, book, tag=""):
     time = st.read(book, "time").term
     ttln = O(st, "ttl", "none")
     mem = lambda o: st.mem(q, o)
-    cs = [("B0 len>=0, queue and bucket lists duplicate-free", z3.And(st.length(q) >= 0, st.nodup(q), z3.ForAll([k], z3.Implies(bucket_dom(st, book, k), st.nodup(bucket_list(st, book, k)))))),
+    cs = [("B0 queue and bucket lists duplicate-free", z3.And(st.nodup(q), z3.ForAll([k], z3.Implies(bucket_dom(st, book, k), st.nodup(bucket_list(st, book, k)))))),
           ("B1 members are well-formed accepted orders of this side, not cancelled, placed no later than now",
            z3.ForAll([x], z3.Implies(mem(x), z3.And(wf_order(st, x), O(st, "is_buy")[x] == side, z3.Not(O(st, "is_canceled")[x]), O(st, "placed_at")[x] <= time,
                                                      z3.Implies(z3.Not(ttln[x]), O(st, "ttl")[x] >= 1))))),
@@ -130,3 +130,10 @@ def heap_order_hook(ex, st, q, popped, op):
     else:
         top = z3.Select(st.elems(qt, ("ref", "Order")), 0)
         st.assume(top_min(st, qt, O(st, "is_buy")[top]))
+
+
+def book_axioms(st, book):
+    """facts about real Python lists seen through the views (assumed, not invariants): len >= 0; for a duplicate-free list len == 0 <=> no member"""
+    q = queue(st, book).term
+    x = z3.Const("x_bax", REF); n = st.length(q)
+    return [n >= 0, z3.Implies(st.nodup(q), z3.And(z3.Implies(n == 0, z3.ForAll([x], z3.Not(st.mem(q, x)))), z3.Implies(z3.ForAll([x], z3.Not(st.mem(q, x))), n == 0)))]
